@@ -234,7 +234,11 @@ static void step(void)
                  else { vh_op("vector_dup(#%d)", i); own(SPIF_VECTOR_DUP(v), T_VEC, pool[i].impl); vh_count("copy", 1); } } break;
 
     /* ---- maps */
-    case 32: case 33: if ((i = pick_kind(T_MAP)) >= 0) { spif_obj_t k = new_label(), v = (spif_obj_t) spif_str_new_from_ptr((spif_charptr_t) word());
+    case 32: case 33: if ((i = pick_kind(T_MAP)) >= 0 && vh_coin(12)) {       /* one and the same object handed in as key and as value: the map keeps two copies of its own */
+                 spif_obj_t k = new_label();
+                 vh_op("map_set(#%d, %s, the same object as value)", i, vh_qs((char *) SPIF_STR_STR((spif_str_t) k)));
+                 SPIF_MAP_SET((spif_map_t) pool[i].p, k, k); SPIF_OBJ_DEL(k); vh_count("map_set_key_object_as_value", 1); break; }
+             if (i >= 0) { spif_obj_t k = new_label(), v = (spif_obj_t) spif_str_new_from_ptr((spif_charptr_t) word());
                  vh_op("map_set(#%d, %s, value) -- caller keeps and deletes its own key and value", i, vh_qs((char *) SPIF_STR_STR((spif_str_t) k)));
                  SPIF_MAP_SET((spif_map_t) pool[i].p, k, v);
                  if (vh_coin(50)) { spif_str_append_from_ptr((spif_str_t) v, (spif_charptr_t) "-scribbled"); spif_str_reverse((spif_str_t) k); }
